@@ -8,7 +8,10 @@ open Asts Asts.L1c
 /-- a class of worlds on which a pod management policy works -/
 structure PolicyClass (h : Hashing) (K : SyncIn → Prop) : Prop where
   ns : ∀ j, K j → NSC h j
+  part : ∀ j, K j → PartOk j.view
   pol : ∀ j (hk : K j), Pol (ns j hk).norm
+  facts : ∀ j (hk : K j), ActFacts j.view (ns j hk).norm.curRev.name (ns j hk).norm.updRev.name (bOf j) (EOf j) j.pods
+    (ns j hk).norm.recon.1.acts
   next : ∀ j, K j → K (nextW h j)
   progress : ∀ j (hk : K j), 0 < muPods j → Event (bOf j) (EOf j) j.pods (ns j hk).norm.recon.1.acts
 
@@ -42,7 +45,7 @@ theorem converge_class {h : Hashing} {K : SyncIn → Prop} (hK : PolicyClass h K
     intro j hk hm
     by_cases hz : muPods j = 0
     · exact ⟨2, by omega, done_final2 (hK.ns j hk) hz⟩
-    · have hlt := (mu_stepC (hK.ns j hk) (hK.pol j hk)).2 (hK.progress j hk (by omega))
+    · have hlt := (mu_stepC (hK.ns j hk) (hK.pol j hk) (hK.part j hk) (hK.facts j hk)).2 (hK.progress j hk (by omega))
       obtain ⟨k, hkk, hf⟩ := ih (hK.next j hk) (by omega)
       exact ⟨k + 1, by omega, hf⟩
 
@@ -58,7 +61,7 @@ theorem converge_of_class {h : Hashing} {K : SyncIn → Prop} (hK : PolicyClass 
 theorem normC_settle {h : Hashing} {i : SyncIn} (hn : NormC h i) : NormC h (settle i) := by
   have hkp : KeyPerm (settle i).pods ((i.pods.filter (fun c => !c.pod.terminating)).map settleOne) := by
     rw [settle_pods]; exact keyPerm_reindex_sort _
-  refine ⟨⟨hn.spec.paused, hn.spec.sel, hn.spec.del, hn.spec.rep, hn.spec.r0, hn.spec.strat, hn.spec.lim⟩, hn.part,
+  refine ⟨⟨hn.spec.paused, hn.spec.sel, hn.spec.del, hn.spec.rep, hn.spec.r0, hn.spec.strat, hn.spec.lim⟩,
     ?_, ?_, hn.rev, hn.noOrphanRev, ?_, hn.smallR, hn.smallB, rfl⟩
   · intro x hx
     obtain ⟨y, hy, hk⟩ := hkp.mem hx
